@@ -1,40 +1,69 @@
 ---- MODULE TracePreprocess ----
 (* Trace specification for C10 (validate direction, code -> spec).  harness/c10_trace.c runs MatrixPreprocess /    *)
-(* TensorPreprocess on matrices 2..60 x 1..20 whose cells are (piv_j + d_ij) * 2^-e with integer d (|d| <= 400),   *)
-(* integer pivots piv_j (offsets up to 1e6 in real units) and MISSING cells, and logs per column the integer data   *)
-(* and what the library returned, projected onto integers:                                                      *)
+(* TensorPreprocess and the column-statistic routines on matrices 2..60 x 1..20 whose cells are                    *)
+(* (piv_j + d_ij) * 2^-e / q with integer d (|d| <= 400), integer pivots piv_j (offsets up to 1e6 in real units),   *)
+(* e in {-20,-10,0,4,10} and q = 1 (dyadic grid, every cell and every column sum exact in double) or                *)
+(* q in {10, 3, 1000, 7, 49, ...} with e = 0 (class K5: cells NOT representable, sum/n one ulp off), and MISSING    *)
+(* cells, and logs per column the integer data and what the library returned, projected onto integers (u = unit):   *)
 (*    s1   = round((avg/u - piv) * N)              must be S1(d)            (stored average = S1/N exactly)      *)
 (*    sc   = round(scale^p / u^q * den)           must be the numerator of the exact statistic (see ScaleClaim)  *)
 (*    cn_i = round(t_i * scale / u * N)           must be N d_i - S1       (transformed cell * scale = x - mean)   *)
 (* each with the distance of the double value from that integer (absolute in 1e-9 units: s1r, ra, cnr; relative in 1e-12: rr).  TLC recomputes  *)
 (* the exact statistics from d with the operators of Preprocess.tla and compares integers exactly; the residuals  *)
 (* are bounded by 1e-9 relative plus the cancellation slack of forming x - mean in double (~1e-15 * |piv| * N).     *)
+(* Columns on a non-dyadic grid (uq # 1) additionally get the rounding slack of PrepRound.tla, a function of the    *)
+(* logged N, piv and spread (it vanishes with the offset); dyadic columns keep the original tolerances unchanged.  *)
+(* A column whose exact scale is 0 must come out as exact zeros on every grid: the recorded bit patterns are        *)
+(* summarised by zero (all present cells are +-0.0), nz (number of cells that are not) and tmax (largest |t|).      *)
 (* All numbers stay inside 32 bits: N <= 60, |d| <= 400 gives N*S2 <= 5.8e8; the pivot is never multiplied except  *)
 (* for RMS scaling, whose columns are generated with |piv| <= 4000 (sum of raw squares <= 1.2e9).                 *)
 (* Prop* conjuncts are what the property states; Impl* conjuncts describe incidental behaviour of the present     *)
-(* code (value left in the transformed matrix at a MISSING cell) and are disabled by PropOnly.                    *)
-EXTENDS Preprocess, TraceBase
+(* code (value left in the transformed matrix at a MISSING cell, bitwise repeatability of a refit) and are         *)
+(* disabled by PropOnly.                                                                                           *)
+(* Stat, DegCol and Deg events cover behaviour the property's statement does not state (the column-statistic        *)
+(* routines called directly, incl. MatrixColVar; columns with fewer than two present cells): the runner reports     *)
+(* their rejection as EXTRA-FINDING, never as a violation.                                                         *)
+EXTENDS Preprocess, PrepRound, TraceBase
 CONSTANT PropOnly
-VARIABLE l
-tvars == <<X, v, type, l>>
+VARIABLES l,
+          uq        \* denominator q of the unit of the current column (1 = dyadic grid)
+tvars == <<X, v, type, l, uq>>
 Ev == Tr[l]
 Step == l' = l + 1
-Keep == UNCHANGED <<X, v, type>>
+Keep == UNCHANGED <<X, v, type, uq>>
 AbsI(a) == IF a < 0 THEN -a ELSE a
 
-TInit == l = 1 /\ X = <<>> /\ v = 0 /\ type = 0
+TInit == l = 1 /\ X = <<>> /\ v = 0 /\ type = 0 /\ uq = 1
 
 \* a new matrix
 TReset == /\ l <= Len(Tr) /\ Ev.e = "Reset" /\ Step
-          /\ X' = <<>> /\ v' = 0 /\ type' = Ev.type
+          /\ X' = <<>> /\ v' = 0 /\ type' = Ev.type /\ uq' = 1
 
-\* a column: integer data d, pivot piv.  X holds the current column, v the pivot
+\* a column: integer data d, pivot piv, unit denominator den.  X holds the current column, v the pivot
 TCol == /\ l <= Len(Tr) /\ Ev.e = "Col" /\ Step
-        /\ X' = Ev.d /\ v' = Ev.piv /\ type' = Ev.type
+        /\ X' = Ev.d /\ v' = Ev.piv /\ type' = Ev.type /\ uq' = Ev.den
+        /\ Ev.den >= 1
         /\ Nn(Ev.d) >= 2
 
 \* cancellation slack in units of 1e-9 of a quantity of the form (double near piv) - piv, times N
 Cancel(n) == ((AbsI(v) \div 1000) * n) \div 1000 + 1000
+\* the same for a column on a non-dyadic grid: input rounding and the rounding of the running sum enter (PrepRound.tla)
+IsQ == uq # 1
+MQ == AbsI(v) + 800                                        \* bound on |piv + d_i| and |piv + new row| in units
+CancelOf(n) == IF IsQ THEN CancelQ(MQ, n) ELSE Cancel(n)
+\* SA = sum |N d_i - S1| over the present cells: what the input rounding of a spread statistic is proportional to
+RECURSIVE SAbsIdx(_, _, _)
+SAbsIdx(x, st, k) == IF k = 0 THEN 0 ELSE (IF x[k] = MISSING THEN 0 ELSE AbsI(st.N * x[k] - st.S1)) + SAbsIdx(x, st, k - 1)
+\* absolute slack of a projected scale statistic in 1e-9 units, 0 on the dyadic grid
+QSlack9(kind, st) == IF ~IsQ THEN 0
+                     ELSE CASE kind = "ssd"   -> SpreadSlack9(MQ, st.N, SAbsIdx(X, st, Len(X)))
+                            [] kind = "range" -> RangeSlack9(MQ)
+                            [] OTHER          -> 0
+\* the same relative to the claimed integer, in 1e-12 units (what the rr / qr fields are measured in)
+QRel12(kind, st, claim) == LET a == QSlack9(kind, st)
+                               d == IF AbsI(claim) > 1 THEN AbsI(claim) ELSE 1 IN
+                           IF a = 0 THEN 0 ELSE IF a > 2000000 THEN 2000000000 ELSE MulDivQ(a, 1000, d) + 1
+ScaleKind == CASE type \in {1, 3} -> "ssd" [] type = 4 -> "range" [] OTHER -> "none"
 \* (every action binds st == Stats(X) once: TLC does not memoise operator applications)
 \* exact statistic behind the stored scaling, as the integer the harness projects onto
 RawS2(st) == st.S2 + 2 * v * st.S1 + st.N * v * v            \* sum (piv + d)^2 ; only for RMS columns (|piv| <= 4000)
@@ -55,42 +84,74 @@ ExactZero(st) == CASE type \in {1, 3} -> st.SSD = 0
 TAvg == /\ l <= Len(Tr) /\ Ev.e = "Avg" /\ Step /\ Keep
         /\ LET st == Stats(X) IN
            /\ Ev.s1 = st.S1
-           /\ Ev.s1r <= AbsI(st.S1) + Cancel(st.N)
+           /\ Ev.s1r <= AbsI(st.S1) + CancelOf(st.N)
 
 \* stored scaling, through the power at which it is rational
 TScale == /\ l <= Len(Tr) /\ Ev.e = "Scale" /\ Step /\ Keep
           /\ LET st == Stats(X) claim == ScaleClaim(st) IN
              /\ Ev.sc = claim
-             /\ IF type = 5 THEN Ev.ra <= AbsI(st.S1) + Cancel(st.N)       \* absolute, 1e-9 units (mean: cancellation against the pivot)
-                            ELSE Ev.rr <= 1000 * Pw(type)                 \* relative, 1e-12 units: 1e-9 per power
+             /\ IF type = 5 THEN Ev.ra <= AbsI(st.S1) + CancelOf(st.N)     \* absolute, 1e-9 units (mean: cancellation against the pivot)
+                            ELSE Ev.rr <= 1000 * Pw(type) + QRel12(ScaleKind, st, claim)   \* relative, 1e-12 units: 1e-9 per power
              /\ (type \in {1, 2, 3, 4} /\ ~ExactZero(st)) => Ev.pos = 1
 
 \* transformed training cells
 TCells == /\ l <= Len(Tr) /\ Ev.e = "Cells" /\ Step /\ Keep
           /\ Ev.fin = 1
           /\ LET st == Stats(X) IN
-             IF ExactZero(st) THEN Ev.zero = 1
+             IF ExactZero(st) THEN Ev.zero = 1 /\ Ev.nz = 0 /\ Ev.tmax = 0
              ELSE /\ Ev.cn = SeqOf(LAMBDA i : IF X[i] = MISSING THEN 0 ELSE st.N * X[i] - st.S1, Len(X))
-                  /\ Ev.cnr <= 2 * st.N * 800 + Cancel(st.N)              \* |N d - S1| <= 2 * N * 400
-          /\ (PropOnly \/ Ev.mz = 1)                                      \* Impl: a MISSING cell is left at 0 by the fit
+                  /\ Ev.cnr <= 2 * st.N * 800 + CancelOf(st.N)            \* |N d - S1| <= 2 * N * 400
+          /\ (PropOnly \/ Ev.mz = 1)                                      \* Impl: a MISSING cell keeps what the output held (0 in a zero-scale column)
 
 \* stored transform applied to the training matrix reproduces the training transform (relative difference, 1e-12 units)
 TSame == /\ l <= Len(Tr) /\ Ev.e = "Same" /\ Step /\ Keep
          /\ Ev.q <= 1000
 
-\* stored transform applied to new rows: the same affine map
+\* stored transform applied to new rows: the same affine map; a MISSING cell of a new row is not constrained and
+\* constrains nothing else
 TNew == /\ l <= Len(Tr) /\ Ev.e = "New" /\ Step /\ Keep
         /\ Ev.fin = 1
         /\ LET st == Stats(X) IN
            IF ExactZero(st) THEN Ev.zero = 1
-           ELSE /\ Ev.cn = SeqOf(LAMBDA k : st.N * Ev.ny[k] - st.S1, Len(Ev.ny))
-                /\ Ev.cnr <= 2 * st.N * 1600 + Cancel(st.N)
+           ELSE /\ Ev.cn = SeqOf(LAMBDA k : IF Ev.ny[k] = MISSING THEN 0 ELSE st.N * Ev.ny[k] - st.S1, Len(Ev.ny))
+                /\ Ev.cnr <= 2 * st.N * 1600 + CancelOf(st.N)
 
 \* option -1 copies; tensor = block by block (bitwise comparison done by the harness, flag checked here)
 TCopy == /\ l <= Len(Tr) /\ Ev.e = "Copy" /\ Step /\ Keep /\ Ev.equal = 1
 TTensor == /\ l <= Len(Tr) /\ Ev.e = "Tensor" /\ Step /\ Keep /\ Ev.equal = 1
 
-TNext == TReset \/ TCol \/ TAvg \/ TScale \/ TCells \/ TSame \/ TNew \/ TCopy \/ TTensor
+\* in-process history (class K7): after other fits (different shape, different data) the first matrix is fitted again into
+\* outputs that are already sized and hold other data.  Prop: the refit agrees with the first fit - whose events this trace
+\* validated - to 1e-9 relative (cells and stored vectors; q in 1e-12 units); Impl: it is bitwise the same
+TAgain == /\ l <= Len(Tr) /\ Ev.e = "Again" /\ Step /\ Keep
+          /\ Ev.q <= 1000
+          /\ (PropOnly \/ Ev.equal = 1)
+
+\* ---- outside the property's statement (EXTRA): the column-statistic routines called directly ----
+\* MatrixColAverage, MatrixColSDEV, MatrixColVar, MatrixColRMS, MatrixColumnMinMax on the current column; q is the integer
+\* projection (as for Avg / Scale), qr its residual (absolute 1e-9 units for avg, min, max; relative 1e-12 units otherwise)
+TStat == /\ l <= Len(Tr) /\ Ev.e = "Stat" /\ Step /\ Keep
+         /\ Ev.fin = 1
+         /\ LET st == Stats(X) IN
+            CASE Ev.fn = "avg"  -> Ev.q = st.S1 /\ Ev.qr <= AbsI(st.S1) + CancelOf(st.N)
+              [] Ev.fn = "sdev" -> Ev.q = st.SSD /\ Ev.qr <= 2000 + QRel12("ssd", st, st.SSD) /\ Ev.neg = 0
+              [] Ev.fn = "var"  -> Ev.q = st.SSD /\ Ev.qr <= 1000 + QRel12("ssd", st, st.SSD) /\ Ev.neg = 0
+              [] Ev.fn = "rms"  -> AbsI(v) <= 4000 /\ Ev.q = RawS2(st) /\ Ev.qr <= 2000 /\ Ev.neg = 0
+              [] Ev.fn = "min"  -> Ev.q = Mn(X) /\ Ev.qr <= CancelOf(1)
+              [] Ev.fn = "max"  -> Ev.q = Mx(X) /\ Ev.qr <= CancelOf(1)
+              [] OTHER -> FALSE
+
+\* ---- outside the property's quantifier (EXTRA): a column with fewer than two present cells ----
+TDegCol == /\ l <= Len(Tr) /\ Ev.e = "DegCol" /\ Step
+           /\ X' = Ev.d /\ v' = Ev.piv /\ type' = Ev.type /\ uq' = Ev.den
+           /\ Degenerate(Ev.d)
+\* the column counts as "without spread": finite stored vectors, exact zeros; a single present value is the stored average
+TDeg == /\ l <= Len(Tr) /\ Ev.e = "Deg" /\ Step /\ Keep
+        /\ Degenerate(X)
+        /\ Ev.sfin = 1 /\ Ev.fin = 1 /\ Ev.zero = 1
+        /\ (Nn(X) = 1 => Ev.s1 = S1(X))
+
+TNext == TReset \/ TCol \/ TAvg \/ TScale \/ TCells \/ TSame \/ TNew \/ TCopy \/ TTensor \/ TAgain \/ TStat \/ TDegCol \/ TDeg
 TSpec == TInit /\ [][TNext]_tvars
 TraceAccepted == Accepted
 Diag == ShowCursor(l)
